@@ -628,6 +628,20 @@ fn exec(ctx: &Ctx, st: &mut State, toks: &[&str]) -> String {
             st.layers.insert(l.to_string(), LayerBox { ptr: Box::into_raw(layer) });
             "ok".into()
         }
+        ["act", w, kind, a] => {
+            // the activation closures of `corgi::activation` applied directly (what the layers call)
+            // the argument is handed over by value as a fresh same-dimension view (a handle nobody else holds),
+            // the way `activation(x.reshape(..))` or a layer hands over its intermediate
+            let f = make_activation(kind).expect("no activation");
+            let arg = {
+                let x = st.get(a);
+                x.reshape(x.dimensions().to_vec())
+            };
+            let r = f(arg);
+            let out = show(&r);
+            st.bind(w, r);
+            out
+        }
         ["lflag", l, which, tr] => {
             // stop_tracking() / start_tracking() on the parameters of a layer (0: first, 1: second, 2: both)
             let ptr = st.layers.get(*l).expect("unknown layer").ptr;
